@@ -580,6 +580,77 @@ def run():
                 ck.violation("Model/Span.v map_span differs from the parser's error span on %r: model %s, impl %s" % (c["src"], v, want),
                              {"src": c["src"], "model": str(v), "impl": str(want), "kind": "correspondence"})
 
+    # ---------------------------------------------------------------- 4. respan_std vs Resolver::fold_function (hook verif:respan)
+    # every error that leaves fold_function logs (span of the error of the inner fold, span of the call, span of the
+    # returned error, branch taken); the model is evaluated on the same two inputs.  Fails closed without the hook.
+    rs_cases, seen_rs = [], set()
+    directed_rs = ["from t | take 1..2..3", "from t | take \"x\"", "from t | window rows:1..0 (derive {x1 = count a})",
+                   "from t | select {a} | filter b > 1", "from t | derive {x = (min a b c)}",
+                   "let f = func x<int> -> x\nfrom t | derive z = f \"a\"",
+                   "from t | group {a} (window rows:1..0 (derive {x1 = count a}))",
+                   "from t | group a (take 1..2..3)", "from t | join (from u | take 1..2..3) (==id)",
+                   "let g = func r -> (r | take 1..2..3)\nfrom t | g", "# é\nfrom t | take 1..2..3"]
+    for s in directed_rs:
+        rs_cases.append({"src": s, "target": None}); seen_rs.add(s)
+    for c in cases:
+        if c["multi"] or c["cls"] not in ("resolution", "type", "sql") or c["src"] in seen_rs or len(c["src"]) > 600:
+            continue
+        seen_rs.add(c["src"])
+        rs_cases.append({"src": c["src"], "target": c["target"]})
+    rs_cases = rs_cases[:len(directed_rs)] + rng.sample(rs_cases[len(directed_rs):], min(len(rs_cases) - len(directed_rs), ck.n(300, 2500)))
+    rs_ans = harness("log", [dict(src=c["src"], want=[], msg_prefix="verif:respan", **({"target": c["target"]} if c["target"] else {})) for c in rs_cases])
+    lines = []
+    for c, a in zip(rs_cases, rs_ans):
+        got = []
+        for e in a.get("entries") or []:
+            m = e.get("Message") if isinstance(e, dict) else None
+            if m and m.startswith("verif:respan "):
+                try:
+                    got.append(json.loads(m[len("verif:respan "):]))
+                except ValueError:
+                    ck.violation("unreadable verif:respan line %r" % m[:200], {"src": c["src"], "kind": "hook"})
+        ck.stat("corr-respan", "lines-per-compile=%d" % min(len(got), 4))
+        for d in got:
+            lines.append((c, d, a))
+    if not lines:
+        ck.violation("the hook `verif:respan` (hooks/respan.diff, Resolver::fold_function) produced no line over %d erroneous compiles: "
+                     "the tree lacks the hook, so respan_std has no correspondence" % len(rs_cases), {"kind": "hook-missing", "hook": "verif:respan"}, no_input=True)
+    coq_sp = lambda x: "None" if x is None else "(Some (Span (N.to_nat %d) (N.to_nat %d) %d))" % (x[0], x[1], x[2])
+    uniq = {}
+    for c, d, a in lines:
+        uniq.setdefault(json.dumps([d["err"], d["call"]]), []).append((c, d))
+    keys = list(uniq)
+    try:
+        vals = coq_eval(header, ["(flat_sp (respan_std %s %s), respan_moves %s %s)" % (coq_sp(e), coq_sp(cl), coq_sp(e), coq_sp(cl))
+                                 for e, cl in (json.loads(k) for k in keys)])
+    except RuntimeError as ex:
+        vals = []
+        ck.coverage["model_eval_error"] = str(ex)[-400:]
+    for k, v in zip(keys, vals):
+        mo = None if v[0] == "None" else list(v[0][1])
+        mm = bool(v[1])
+        for c, d in uniq[k]:
+            ck.count("corr-respan", json.dumps([c["src"], d["err"], d["call"]]))
+            ck.stat("corr-respan", "err:%s,call:%s,%s" % ("none" if d["err"] is None else ("std" if d["err"][2] == 0 else "user"),
+                                                             "none" if d["call"] is None else ("std" if d["call"][2] == 0 else "user"),
+                                                             "moved" if d["moved"] else "kept"))
+            if mo != d["out"] or mm != d["moved"]:
+                ck.violation("Model/Span.v respan_std differs from Resolver::fold_function on error span %s, call span %s: model %s (moves=%s), impl %s (moved=%s)"
+                             % (d["err"], d["call"], mo, mm, d["out"], d["moved"]),
+                             {"src": c["src"], "err": d["err"], "call": d["call"], "model": mo, "impl": d["out"], "kind": "correspondence"})
+    # the chain fold_function -> composed: the span of the (single) reported error is what `composed` makes of the span that
+    # the outermost fold_function returned (kept when it names the file, removed when it is a span of std.prql)
+    for c, a in zip(rs_cases, rs_ans):
+        got = [d for (c2, d, _) in lines if c2 is c]
+        if not got or "err" not in a or len(a["err"]) != 1 or got[-1]["out"] is None:
+            continue
+        out = got[-1]["out"]
+        want = {"start": out[0], "end": out[1], "source_id": out[2]} if out[2] == 1 else None
+        ck.count("chain-respan-composed", c["src"])
+        if a["err"][0].get("span") != want:
+            ck.violation("the reported span %s is not what `composed` makes of the span %s returned by the outermost fold_function" % (a["err"][0].get("span"), out),
+                         {"src": c["src"], "out": out, "reported": a["err"][0].get("span"), "kind": "chain"})
+
     ck.proof_broken_violation(found_input=bool(ck.violations))
     if "error" in ginfo:
         ck.coverage["translator_error"] = ginfo["error"]
